@@ -39,11 +39,12 @@ def case_strategy(draw):
     mode = draw(st.sampled_from(["auto", "cross", "cross"]))
     # up to 5 scales: with >= 4 scales (>= 8 distinct limits) the library leaves its cumulative
     # counting path also without separation weighting
-    cfg, theta_max = draw(gen.config_case(max_scales=draw(st.sampled_from([3, 3, 5]))))
+    huge = draw(st.integers(0, 39)) == 39  # rarely hundreds of patches (three-digit ids, > 8-bit counts)
+    # (small angles for those: the lattice has to fit on the sky and only neighbouring patches should be linked)
+    cfg, theta_max = draw(gen.config_case(max_scales=draw(st.sampled_from([3, 3, 5])), **({"theta_range": (2e-3, 1e-2)} if huge else {})))
     edges = gen.binning_edges_reference(cfg, cfg["cosmology"])
     many = draw(st.integers(0, 9)) == 0  # occasionally 10-12 patches (two-digit patch ids), few objects each
     size = dict(min_patches=10, max_patches=12, max_per_patch=2) if many else {}
-    huge = draw(st.integers(0, 39)) == 39  # rarely hundreds of patches (three-digit ids, > 8-bit counts)
     if mode == "auto":
         ncat, need = 2, (0, 1)
         opts = {"count_rr": draw(st.booleans())}
@@ -63,6 +64,8 @@ def case_strategy(draw):
     # their centres from that catalog (centres derived by the library instead of given)
     scene["derived"] = draw(st.integers(0, 5)) == 0
     again = draw(st.sampled_from([None, None, None, None, "closed", "edges", "shorter", "longer"]))
+    if huge:
+        again = None
     return {"mode": mode, "cfg": cfg, "theta_max": theta_max, "scene": scene, "opts": opts, "again": again}
 
 
